@@ -332,6 +332,23 @@ func genBlock(pr *histProfile) func(t *rapid.T) hBlock {
 		b.Txs = rapid.SliceOfN(rapid.Custom(genTx(pr)), 0, maxTxs).Draw(t, "txs")
 		if pr.Queries && rapid.IntRange(0, 3).Draw(t, "hasq") == 0 {
 			b.Queries = rapid.SliceOfN(rapid.Custom(func(t *rapid.T) hQuery {
+				if rapid.Bool().Draw(t, "qwellformed") {
+					// well-formed custom queries: they get past parameter decoding and read (and page through) state
+					q := hQuery{H: int64(rapid.IntRange(0, 6).Draw(t, "qwh"))}
+					switch rapid.IntRange(0, 2).Draw(t, "qshape") {
+					case 0:
+						q.Tmpl = "page"
+						q.Path = rapid.SampledFrom([]string{"/custom/pos/validators", "/custom/pos/unstaking_validators", "/custom/pos/staked_validators", "/custom/pos/unstaked_validators", "/custom/pos/signingInfos"}).Draw(t, "qppath")
+						q.A, q.B = rapid.IntRange(-1, 3).Draw(t, "qpage"), rapid.SampledFrom([]int{0, 1, 2, 100, -1}).Draw(t, "qlimit")
+					case 1:
+						q.Tmpl = "addr"
+						q.Path = rapid.SampledFrom([]string{"/custom/pos/validator", "/custom/pos/signingInfo", "/custom/pos/account_balance", "/custom/auth/account"}).Draw(t, "qapath")
+						q.A = rapid.SampledFrom([]int{0, 1, 2, 3, 7, 9, 13, 100, 101, 102, 103}).Draw(t, "qaddr")
+					default:
+						q.Path = rapid.SampledFrom([]string{"/custom/pos/stakedPool", "/custom/pos/unstakedPool", "/custom/pos/parameters", "/custom/gov/acl", "/custom/gov/dao", "/custom/gov/daoOwner", "/custom/gov/upgrade"}).Draw(t, "qnpath")
+					}
+					return q
+				}
 				return hQuery{Path: rapid.SampledFrom([]string{"/store/pos/key", "/store/auth/key", "/custom/pos/validators", "/custom/pos/params", "/custom/auth/supply", "/custom/gov/acl", "/app/version", "/nosuch"}).Draw(t, "qpath"),
 					Data: fmt.Sprintf("%x", rapid.SliceOfN(rapid.Byte(), 0, 24).Draw(t, "qdata")), H: int64(rapid.IntRange(0, 6).Draw(t, "qh"))}
 			}), 1, 3).Draw(t, "queries")
